@@ -303,7 +303,12 @@ def _run_query_once(q, root, seed):
                     import random
                     rnd = random.Random(seed * 7919 + aid)
                     for attempt in range(400):
-                        tr2 = [(rnd.getrandbits(64) if rnd.random() < 0.7 else rnd.getrandbits(rnd.choice((4, 8, 16, 40)))) if v > (1 << 20) else v for v in tr]
+                        # equal wide values stay equal (one fresh value per distinct original value)
+                        remap = {}
+                        for v in tr:
+                            if v > (1 << 20) and v not in remap:
+                                remap[v] = rnd.getrandbits(64) if rnd.random() < 0.7 else rnd.getrandbits(rnd.choice((4, 8, 16, 40)))
+                        tr2 = [remap.get(v, v) for v in tr]
                         rf2 = rf + '.c%d' % attempt
                         open(rf2, 'w').write('# concretised from abstract counterexample of %s (%s)\n' % (pid, desc) + '\n'.join(str(v) for v in tr2) + '\n')
                         rn2, on2 = run_exe(info['exe_n'], 'replay', rf2)
